@@ -281,13 +281,33 @@ def sweepL (P : Nat → Bool) : List T → List T
     | none => sweepL P cs
 end
 
-/-- the specification of the first pass of `prune_taxa` for the flag settings that have one -/
+mutual
+/-- leaf flag off, internal flag on, decided without running the pass: a node goes exactly when it carries a pruned taxon AND at
+    least one of its children stays (a node all of whose children go has become a leaf, and leaves are not filtered); an alternating
+    recursion from the leaves up — leaves never go -/
+def goneFI (P : Nat → Bool) : T → Bool
+  | .node _ x _ _ cs => inP P x && someStaysFI P cs
+def someStaysFI (P : Nat → Bool) : List T → Bool
+  | [] => false
+  | c :: cs => !goneFI P c || someStaysFI P cs
+end
+
+mutual
+/-- remove, top-down, every node that `goneFI` condemns, with everything below it -/
+def dropFI (P : Nat → Bool) : T → T
+  | .node i x l s cs => .node i x l s (dropFIL P cs)
+def dropFIL (P : Nat → Bool) : List T → List T
+  | [] => []
+  | c :: cs => if goneFI P c then dropFIL P cs else dropFI P c :: dropFIL P cs
+end
+
+/-- the specification of the first pass of `prune_taxa`, all four flag settings -/
 def strikeSpec (P : Nat → Bool) (fl fi : Bool) (t : T) : Option (Option T) :=
   match fl, fi with
   | true, true => some (chop P t)
   | true, false => some (sweep P t)
   | false, false => some (some t)
-  | false, true => none
+  | false, true => some (if goneFI P t then none else some (dropFI P t))
 
 /-! ## the by-label entry points: label → taxa resolution through the namespace -/
 /-- a namespace as the by-label entry points see it: its members in namespace order, each with accession bit and label -/
